@@ -72,6 +72,17 @@ Theorem C10_fd_released_at_most_once : forall ops w, Inv w -> Forall wf_op ops -
 Proof. exact fd_released_at_most_once. Qed.
 Print Assumptions C10_fd_released_at_most_once.
 
+(** after close() - whether it succeeded or raised - every I/O call on the object fails with an error and changes nothing,
+    and the descriptor number never becomes valid again whatever is called afterwards: nothing can touch whoever owns the
+    old descriptor number now *)
+Theorem C10_io_after_close_fails : forall w force, Inv w ->
+  let w' := snd (close w force) in fst (io w') = RaisePty 3 /\ snd (io w') = w'.
+Proof. exact io_after_close. Qed.
+Print Assumptions C10_io_after_close_fails.
+Theorem C10_fd_stays_invalid : forall w o, Inv w -> wf_op o -> s_fd_valid (sp w) = false -> s_fd_valid (sp (snd (lstep w o))) = false.
+Proof. exact fd_stays_invalid. Qed.
+Print Assumptions C10_fd_stays_invalid.
+
 Example C10_stubborn_stopped_child :
   fst (terminate (world0 true true true) true) = RBool true.
 Proof. vm_compute. reflexivity. Qed.
